@@ -211,6 +211,7 @@ def scenario(k: Kernel, plan, obs):
         st.open = sim_open
     hist = History()
     obs["hist"] = hist
+    fds_before = set(os.listdir("/proc/self/fd"))
     if plan.get("file_prefix"):
         storage = st.TextFileStorage(tmp, plan["file_prefix"], number_of_data=plan["presize"])
     else:
@@ -313,6 +314,7 @@ def scenario(k: Kernel, plan, obs):
                     reads.append(None)
             ru["reads"] = reads
         obs["reused"] = ru
+    obs["fd_leak"] = len(set(os.listdir("/proc/self/fd")) - fds_before)
     obs["phase"] = "done"
 
 
@@ -466,6 +468,9 @@ def evaluate(plan, obs, k, kind, info):
             viol.append({"class": "flush", "site": "files-left", "message": str(fl["files_left"])})
         if fl["len"] != 0 or fl["list"] or any(v is not None for v in fl["reads"].values()):
             viol.append({"class": "flush", "site": "not-reset", "message": f"after flush: len={fl['len']} list={fl['list']} reads={fl['reads']}"})
+    if obs.get("fd_leak") and not failed:
+        viol.append({"class": "resource", "site": "descriptor-leak",
+                     "message": f"{obs['fd_leak']} file descriptors are still open after every process closed the storage"})
     ru = obs.get("reused")
     if ru is not None:
         exp = [t for _, t in plan["reuse_after_flush"]]
